@@ -177,7 +177,7 @@ def run_case(case, tl_max):
 
 
 # ---- levels: the guard at file / type / variant / field / struct-variant-field level, through parser::parse ------------------
-LEVELS = ["file", "type", "variant", "field", "variant_field", "variant_and_field"]
+LEVELS = ["file", "type", "type_before", "type_between", "enum_before", "variant", "field", "variant_field", "variant_and_field"]
 LEVEL_TREES = [("os",), ("not", (("os",),)), ("any", (("os",), ("os",))), ("all", (("not", (("os",),)), ("os",))), ("all", (("os",), ("not", (("os",),)))), ("feat",)]
 SPELLINGS = {"rustfmt": lambda t: t, "compact": lambda t: t.replace(" = ", "=").replace(", ", ","), "spread": lambda t: t.replace(" = ", "  =\n    ")}
 
@@ -193,6 +193,13 @@ def level_source(level, tree, spelling, names=None):
         return "#![%s]\n#[typeshare]\npub struct Guarded { pub x: u32 }\n" % cfg
     if level == "type":
         return "#[typeshare]\n%s\npub struct Guarded { pub x: u32 }\n#[typeshare]\npub struct Other { pub y: u32 }\n" % g
+    if level == "type_before":
+        # round n: the guard is written above the #[typeshare] marker (attribute order is free)
+        return "%s\n#[typeshare]\npub struct Guarded { pub x: u32 }\n#[typeshare]\npub struct Other { pub y: u32 }\n" % g
+    if level == "type_between":
+        return "#[derive(Debug)]\n%s\n#[derive(Clone)]\n#[typeshare]\n#[serde(default)]\npub struct Guarded { pub x: u32 }\n#[typeshare]\npub struct Other { pub y: u32 }\n" % g
+    if level == "enum_before":
+        return "%s\n#[typeshare]\npub enum Guarded { A, B }\n#[typeshare]\npub struct Other { pub y: u32 }\n" % g
     if level == "variant":
         return "#[typeshare]\npub enum Holder { Keep, %s Guarded }\n" % g
     if level == "field":
@@ -208,8 +215,10 @@ def level_present(level, d):
     """is the guarded thing in the (JSON-like) summary?  d: {'structs': [(name, [fields])], 'enums': [(name, [(variant, fields|None)])]}"""
     if level == "variant_and_field":
         level = "variant_field"
-    if level in ("file", "type"):
+    if level in ("file", "type", "type_before", "type_between"):
         return any(n == "Guarded" for n, _ in d["structs"])
+    if level == "enum_before":
+        return any(n == "Guarded" for n, _ in d["enums"])
     if level == "variant":
         return any(v == "Guarded" for _, vs in d["enums"] for v, _ in vs)
     if level == "field":
